@@ -10,7 +10,7 @@ opened in phases around a seeded `ServerHandle::shutdown(Graceful{timeout} | For
 from lib import vlib
 
 RULE = (
-    "One run = one server (workers in {1,2,4}), mode Graceful{300-700 ms} (72%) or Forced, shutdown called 160-340 ms "
+    "One run = one server (workers in {1,2,4}; 1 or 2 listeners), mode Graceful{300-700 ms} (72%) or Forced, shutdown called 160-340 ms "
     "after start; 1-40 connections with seeded roles: blocker (std::thread::sleep 60-200 ms, graceful; 300-500 ms, forced, "
     "running when the call is made; in 10% of the graceful runs instead one 'stuck worker' blocker of 3 x timeout + 600-800 ms "
     "with timeout 300/400 ms, so that the coordinator has to give up on a worker; in 14% of the graceful runs a 'drain probe': "
@@ -55,7 +55,9 @@ ASSUMPTIONS = [
     "saw < 100 ms lag; otherwise inconclusive",
     "the timeout branch of graceful resolution is checked with 3x padding (+250 ms) from the coordinator's "
     "`workers_told` event, and only on a calm machine (heartbeat lag < 100 ms)",
-    "HTTP/1.1 only; one listener per server",
+    "HTTP/1.1 only; one listener per server in 70% of the runs, two in 30% (connection i talks to listener i mod 2; the "
+    "drain rule is judged on the last `listener_closed` event and only when every listener logged one; two connections of a "
+    "run that got the same client port make the run inconclusive, since the log identifies connections by client port)",
 ]
 
 
